@@ -339,7 +339,7 @@ Proof.
     by (destruct vals; [inversion P; reflexivity|eapply push_refines; eauto]).
   assert (S1 : same_ctl s s1) by (destruct vals; [inversion P; subst; apply same_ctl_refl|eapply co_push_same; eauto]).
   pose proof (same_ctl_Inv _ _ S1 I) as I1.
-  unfold sp_resume. rewrite PS. unfold co_resume in H. rewrite P, resume_rolls_back in H.
+  unfold sp_resume. rewrite PS. unfold co_resume, co_resume_with in H. rewrite P, resume_rolls_back in H.
   destruct r1; simpl abs_res.
   - destruct (mco_resume k s1) as [e s2] eqn:R. simpl ss_cos. rewrite abs_get.
     unfold s_active. simpl ss_stack. rewrite <- (same_ctl_stack _ _ I S1).
